@@ -463,7 +463,7 @@ pub fn check() -> Option<Check> {
         level: "exploration",
         rule: "histories of 1..6 UPDATE messages (0..3 prerequisite RRs, 0..5 update RRs each) over 14 owner names (apex in two spellings, hosts, case variant, wildcard, child, delegation point and a name below it, 4 out-of-zone names) x class {zone, ANY, NONE, CH} x type {A, TXT, NS, CNAME, SOA, ANY, AXFR} x ttl {0, >0} x rdata {empty, 3 values per type; SOA serials near 2^31 and 2^32-1} against an initial zone of SOA + 1..2 NS + 0..7 RRs; two thirds of the prerequisite RRs of later messages are re-aimed at a name/RRset that an earlier message's update section touched; ~7 % of the RRs carry one off-table edit (other class, TTL>0, RDATA against the row, AXFR/ANY type); in half of the histories the empty RRset objects of the known finding empty-rrset-left-after-delete-rr stay in the implementation between messages (prerequisites on them must still read 'no such RRset'), in the other half the harness clears them; applied through signed request bytes -> Request::from_bytes -> ZoneHandler::update with an in-memory journal (history_real_path) and through verify_prerequisites/pre_scan/update_records (history_direct). Non-trivial = distinct history AND >= 2 messages AND some prerequisite names an RRset/name changed by an earlier accepted message AND at least one accept and one reject",
         assumptions: vec![
-            "where RFC 2136 text and pseudocode disagree (SOA add with equal serial; last NS of a non-apex NS RRset) or RFC 1982 leaves a comparison undefined, either result is accepted",
+            "where RFC 2136 text and pseudocode disagree (SOA add with equal serial; last NS of a non-apex NS RRset) either result is accepted; an SOA add whose serial is exactly 2^31 from the zone's (RFC 1982: undefined) must be ignored, since a replacement could not leave the serial advanced",
             "class = zone add with empty RDATA (not a row of table 3.4.2.6) may be refused or added literally",
             "the value of the SOA serial after an accepted update is the server's choice; only its RFC 1982 relation to the previous serial is asserted",
             "exact error codes are recorded (classes error-code-differs:*), not asserted",
